@@ -54,6 +54,9 @@ class IsoTpStateMachine:
         except ValueError:
             return  # unknown CAN ID
 
+        if len(data) == 0:
+            return  # malformed frame: no protocol control information
+
         # decode the isotp segment
         frame_type, _ = bitstruct.unpack("u4u4", data)
         assert isinstance(frame_type, int)
@@ -69,6 +72,9 @@ class IsoTpStateMachine:
             yield (rx_id, data[1:1 + telegram_len])
 
         elif frame_type == IsoTp.FRAME_TYPE_FIRST:
+            if len(data) < 2:
+                return  # malformed frame: truncated telegram length
+
             frame_type, telegram_len = bitstruct.unpack("u4u12", data)
             assert isinstance(telegram_len, int)
 
